@@ -157,6 +157,18 @@ func c12Run(c *h.Ctx) {
 			cs.Payload = [][]byte{{}} // zero-length ApplicationParameters are parameters too
 			boundary = false
 		}
+		if cs.Kind == "interest" && len(cs.Name) >= 1 && br.Intn(8) == 0 {
+			// a follow-up built on an earlier parameterized Interest's name: that name's parameters
+			// digest stays in the middle, the new Interest gets its own at the end
+			dg := make([]byte, 32)
+			br.Read(dg)
+			k := br.Intn(len(cs.Name))
+			nn := append(enc.Name{}, cs.Name[:k]...)
+			nn = append(nn, enc.Component{Typ: enc.TypeParametersSha256DigestComponent, Val: dg})
+			nn = append(nn, cs.Name[k:]...)
+			cs.Name = nn
+			c.Count("interests_with_an_inner_parameters_digest", 1)
+		}
 		if !c.Case(id) {
 			continue
 		}
@@ -450,7 +462,7 @@ func init() {
 		Rule: "packets from the C03 generator restricted to signed packets and Interests with parameters; per packet: (A) signer input == parser's signed portion == spec-defined signed portion located by the independent walker, matching validator accepts and harness crypto verifies; " +
 			"(B) every single-bit flip (all positions for small packets, a uniform sample otherwise) inside signed portion / signature value / parameters must be rejected by decode or validator; (C) wrong digests rejected; " +
 			"distinct = (kind, signer, parameters present, length decile)",
-		Assumptions: []string{"signed portion per NDN packet spec v0.3 computed by internal/tlvwalk", "Go crypto library used by the harness for the independent verification"},
+		Assumptions: []string{"an Interest name with more than one ParametersSha256Digest component is outside the NDN packet format (exactly one is allowed); for such names - a follow-up built on an earlier parameterized Interest's name - the last one is taken as this Interest's digest and the earlier ones as ordinary signed components, which is the encoder's convention", "signed portion per NDN packet spec v0.3 computed by internal/tlvwalk", "Go crypto library used by the harness for the independent verification"},
 		Batches:     func(t bool) int { return 16 },
 		ChildTimeoutS: func(t bool) int {
 			if t {
